@@ -66,6 +66,12 @@ def ctor_literals():
         out.append(("tail_outside", (U + [U[-1] + 1],)))
         out.append(("head_outside", ([U[0] - 1] + U,)))
         out.append(("tail_outside_block", (U + [U[-1] + 1] * (p + 1),)))
+        # the same malformations with an explicit degree (the inferred degree hides some of them)
+        for lab2, V in (("drop_first", U[1:]), ("drop_last", U[:-1]), ("dup_first", [U[0]] + U), ("dup_last", U + [U[-1]]),
+                        ("tail_outside", U + [U[-1] + 1]), ("head_outside", [U[0] - 1] + U)):
+            for d in (p - 1, p, p + 1):
+                if d >= 0:
+                    out.append((lab2 + "_explicit_degree", (V, d)))
         if len(U) > 2:
             V = list(U)
             V[0], V[-1] = V[-1], V[0]
